@@ -3,12 +3,17 @@ use crate::util::Ctx;
 
 pub mod real;
 pub mod c12;
+pub mod c16;
 
 pub fn run(ctx: &mut Ctx) -> bool {
     match ctx.id.as_str() {
         "C12" => {
             ctx.rule = c12::RULE.into();
             c12::run(ctx)
+        }
+        "C16" => {
+            ctx.rule = c16::RULE.into();
+            c16::run(ctx)
         }
         _ => return false,
     }
